@@ -83,3 +83,12 @@ Definition agree_C06 (a b : out) : bool :=
            (o_structs a) (o_structs b).
 
 Definition on_out (r : result out) (f : out -> bool) : bool := match r with Ok o => f o | _ => false end.
+
+(** everything except SOURCE (include variant vs embedded variant) *)
+Definition agree_but_source (a b : out) : bool :=
+  out_eqb (mkOut (o_structs a) (o_consts a) (o_overrides a) (o_bind_groups a) (o_vstructs a) (o_compute a)
+                 (o_entry_consts a) (o_vertex_tpl a) (o_ventries a) (o_fragment_tpl a) (o_fentries a)
+                 (SrcInclude "") (o_pc_stages a) (o_pl_groups a) (o_pc_ranges a))
+          (mkOut (o_structs b) (o_consts b) (o_overrides b) (o_bind_groups b) (o_vstructs b) (o_compute b)
+                 (o_entry_consts b) (o_vertex_tpl b) (o_ventries b) (o_fragment_tpl b) (o_fentries b)
+                 (SrcInclude "") (o_pc_stages b) (o_pl_groups b) (o_pc_ranges b)).
